@@ -9,6 +9,9 @@ C14.b  [order] every instantiated CS_ split dispatcher branches on `prong < R_PR
        With C14.a this is an induction on the tree: wideX(control, k) reaches exactly leaf k.
 C14.c  the initial request is the constant 0
 C14.d  access<T>() is a derived-to-base conversion of the apex (never a reinterpreting cast)
+C14.e  library code never copy- or move-constructs a state object (callbacks run on the object access<T>() names)
+C14.f  copy/move operations leave their source untouched, so the destructor of a moved-from machine exits the state it entered and
+       not the one the invalid prong falls through to (shares C01.g); C14.c also carries the invalid-prong observer of C01.a
 """
 from gen import nfamily
 from lint.common import AnalysisBroken
